@@ -3,6 +3,7 @@ import RedisVerif.Lemmas.Conn
 import RedisVerif.Lemmas.ConnWrite
 import RedisVerif.Lemmas.ConnSim
 import RedisVerif.Lemmas.ConnJunk
+import RedisVerif.Lemmas.ConnFix
 
 /-
   C04 — pipelining: exactly one reply per command, in order, however the bytes arrive.
@@ -68,14 +69,14 @@ def cmdCrlfName : Cmd := [[13, 10]]
     segmentation of every well-formed pipeline — ANY command names and arguments —, under every
     batching configuration, executes every command exactly once, in order (on the generic path) -/
 def C04_segmentation_independent (h : Nat) (guard : Bool) : Prop :=
-  ∀ (cfg : Config), cfg.headerLen = h → cfg.nameGuard = guard → cfg.codec = codec1 → 2 ≤ cfg.env.depth →
+  ∀ (cfg : Config), cfg.headerLen = h → cfg.repaired = false → cfg.nameGuard = guard → cfg.codec = codec1 → 2 ≤ cfg.env.depth →
   ∀ (cmds : List Cmd) (segs : List Bytes), segs.flatten = stream cmds →
     Small (stream cmds) → (stream cmds).length ≤ cfg.maxBuffer →
     run cfg segs = execAll cmds
 
 /-- the general form: `CmdOK cfg c` = two decoder frames of stack, and the name guard is on OR the
     name of `c` is not empty / white space only -/
-theorem segmentation_independent_cmdok (cfg : Config) (h14 : cfg.headerLen = 14) (hc : cfg.codec = codec1)
+theorem segmentation_independent_cmdok (cfg : Config) (h14 : DeadCfg cfg) (hc : cfg.codec = codec1)
     (hd : 1 ≤ cfg.env.depth) (cmds : List Cmd) (segs : List Bytes) (h : segs.flatten = stream cmds)
     (hs : Small (stream cmds)) (hmax : (stream cmds).length ≤ cfg.maxBuffer) (hok : ∀ c ∈ cmds, CmdOK cfg c) :
     run cfg segs = execAll cmds :=
@@ -83,12 +84,12 @@ theorem segmentation_independent_cmdok (cfg : Config) (h14 : cfg.headerLen = 14)
 
 /-- HEADER_LEN = 14 and the guarded `check_acl_permission` — the code as it is (fix 5f3bab5) -/
 theorem segmentation_independent : C04_segmentation_independent 14 true :=
-  fun cfg h14 hg hc hd cmds segs h hs hmax =>
-    run_wf cfg h14 hc (by omega) cmds segs h hs hmax (fun _ _ => ⟨hd, Or.inl hg⟩)
+  fun cfg h14 hr hg hc hd cmds segs h hs hmax =>
+    run_wf cfg (DeadCfg.of14 hr h14) hc (by omega) cmds segs h hs hmax (fun _ _ => ⟨hd, Or.inl hg⟩)
 
 /-- PARTIAL, the PINNED code before fix 5f3bab5 (`parts[0]`): for pipelines in which no command NAME is empty or white
     space only (`nameWs`, decidable) -/
-theorem segmentation_independent_partial (cfg : Config) (h14 : cfg.headerLen = 14) (hc : cfg.codec = codec1)
+theorem segmentation_independent_partial (cfg : Config) (h14 : DeadCfg cfg) (hc : cfg.codec = codec1)
     (hd : 2 ≤ cfg.env.depth) (cmds : List Cmd) (segs : List Bytes) (h : segs.flatten = stream cmds)
     (hs : Small (stream cmds)) (hmax : (stream cmds).length ≤ cfg.maxBuffer)
     (hname : ∀ c ∈ cmds, nameWs c = false) :
@@ -101,7 +102,7 @@ theorem segmentation_independent_partial (cfg : Config) (h14 : cfg.headerLen = 1
     (fixed: known_findings.json 5f3bab5; the witness is a corpus case that must pass now) -/
 theorem empty_name_counterexample : ¬ C04_segmentation_independent 14 false := by
   intro h
-  have := h cfg14 rfl rfl rfl (by decide) [cmdPing, cmdEmptyName, cmdPing]
+  have := h cfg14 rfl rfl rfl rfl (by decide) [cmdPing, cmdEmptyName, cmdPing]
     [stream [cmdPing, cmdEmptyName, cmdPing]] (by simp) (by decide) (by decide)
   have hc : hasCrash (run cfg14 [stream [cmdPing, cmdEmptyName, cmdPing]]) = true := by decide
   rw [this] at hc
@@ -120,7 +121,7 @@ example : hasCrash (run cfg14 ((stream [[[13, 10, 9, 194, 160], [120]]]).map (fu
     consumed by `collect_get_keys`, found to be fewer than `batch_threshold`, and never answered -/
 theorem header13_counterexample : ¬ C04_segmentation_independent 13 true := by
   intro h
-  have := h cfg13 rfl rfl rfl (by decide) [cmdGetK, cmdPing, cmdPing, cmdPing]
+  have := h cfg13 rfl rfl rfl rfl (by decide) [cmdGetK, cmdPing, cmdPing, cmdPing]
     [stream [cmdGetK, cmdPing, cmdPing, cmdPing]] (by simp) (by decide) (by decide)
   have hc : replyCount (run cfg13 [stream [cmdGetK, cmdPing, cmdPing, cmdPing]]) = 3 := by decide
   rw [this] at hc
@@ -137,7 +138,7 @@ theorem replies_execAll_length : ∀ (s : ExSt) (cmds : List Cmd), (replies s (e
     rw [this]
 
 /-- exactly one reply per command -/
-theorem one_reply_per_command (cfg : Config) (h14 : cfg.headerLen = 14) (hc : cfg.codec = codec1) (hd : 1 ≤ cfg.env.depth)
+theorem one_reply_per_command (cfg : Config) (h14 : DeadCfg cfg) (hc : cfg.codec = codec1) (hd : 1 ≤ cfg.env.depth)
     (cmds : List Cmd) (segs : List Bytes) (h : segs.flatten = stream cmds)
     (hs : Small (stream cmds)) (hmax : (stream cmds).length ≤ cfg.maxBuffer) (hok : ∀ c ∈ cmds, CmdOK cfg c) :
     (replies ExSt.init (run cfg segs)).length = cmds.length := by
@@ -146,7 +147,7 @@ theorem one_reply_per_command (cfg : Config) (h14 : cfg.headerLen = 14) (hc : cf
 
 /-- … each equal to the reply the command gets when every command arrives alone, in its own
     segment, under any other configuration -/
-theorem replies_as_sent_alone (cfg cfg' : Config) (h14 : cfg.headerLen = 14) (h14' : cfg'.headerLen = 14)
+theorem replies_as_sent_alone (cfg cfg' : Config) (h14 : DeadCfg cfg) (h14' : DeadCfg cfg')
     (hc : cfg.codec = codec1) (hc' : cfg'.codec = codec1)
     (hd : 1 ≤ cfg.env.depth) (hd' : 1 ≤ cfg'.env.depth)
     (cmds : List Cmd) (segs : List Bytes) (h : segs.flatten = stream cmds)
@@ -158,7 +159,7 @@ theorem replies_as_sent_alone (cfg cfg' : Config) (h14 : cfg.headerLen = 14) (h1
 
 /-- which path carried a command cannot matter: on well-formed input the batch collectors and the
     fast path never carry one (they are dead code for well-formed frames because of HEADER_LEN = 14) -/
-theorem path_irrelevant (cfg : Config) (h14 : cfg.headerLen = 14) (hc : cfg.codec = codec1) (hd : 1 ≤ cfg.env.depth)
+theorem path_irrelevant (cfg : Config) (h14 : DeadCfg cfg) (hc : cfg.codec = codec1) (hd : 1 ≤ cfg.env.depth)
     (cmds : List Cmd) (segs : List Bytes) (h : segs.flatten = stream cmds)
     (hs : Small (stream cmds)) (hmax : (stream cmds).length ≤ cfg.maxBuffer) (hok : ∀ c ∈ cmds, CmdOK cfg c) :
     ∀ a ∈ run cfg segs, ∃ f, a = .exec f .generic := by
@@ -188,7 +189,7 @@ def hasOverflow : List Action → Bool
     `|frame| + read_size > max + 1` a segmentation exists that trips the guard.  For a stream that
     fits into `max_buffer_size` altogether no slack is needed: `segmentation_independent`.) -/
 def C04_no_overflow_below_limit (onR : Config → St → Bytes → St × List Action) : Prop :=
-  ∀ (cfg : Config), cfg.headerLen = 14 → cfg.codec = codec1 → 1 ≤ cfg.env.depth → 1 ≤ cfg.readSize →
+  ∀ (cfg : Config), DeadCfg cfg → cfg.codec = codec1 → 1 ≤ cfg.env.depth → 1 ≤ cfg.readSize →
   ∀ (cmds : List Cmd) (segs : List Bytes), segs.flatten = stream cmds → Small (stream cmds) →
     (∀ c ∈ cmds, (encCmd c).length + cfg.readSize ≤ cfg.maxBuffer + 1) → (∀ c ∈ cmds, CmdOK cfg c) →
     ((segs.flatMap (fun s => splitReads cfg.readSize s.length s)).foldl
@@ -209,7 +210,7 @@ example : hasOverflow (run { cfg14 with readSize := 32, maxBuffer := 32 }
     error, whatever the read size and the segmentation (no slack needed: the buffer never holds
     more than what was sent) -/
 def C04_no_overflow_when_stream_fits (onR : Config → St → Bytes → St × List Action) : Prop :=
-  ∀ (cfg : Config), cfg.headerLen = 14 → cfg.codec = codec1 → 1 ≤ cfg.env.depth →
+  ∀ (cfg : Config), DeadCfg cfg → cfg.codec = codec1 → 1 ≤ cfg.env.depth →
   ∀ (cmds : List Cmd) (segs : List Bytes), segs.flatten = stream cmds → Small (stream cmds) →
     (stream cmds).length ≤ cfg.maxBuffer → (∀ c ∈ cmds, CmdOK cfg c) →
     ((segs.flatMap (fun s => splitReads cfg.readSize s.length s)).foldl
@@ -225,7 +226,7 @@ theorem no_overflow_when_stream_fits : C04_no_overflow_when_stream_fits onRead :
     spare — is answered `-ERR buffer overflow` -/
 theorem overflow_guard_capacity_counterexample : ¬ C04_no_overflow_when_stream_fits onReadCap := by
   intro h
-  have := h { cfg14 with readSize := 64, maxBuffer := 64 } rfl rfl (by decide)
+  have := h { cfg14 with readSize := 64, maxBuffer := 64 } (by decide) rfl (by decide)
     [cmdPing, cmdPing] [(stream [cmdPing, cmdPing]).take 5, (stream [cmdPing, cmdPing]).drop 5]
     (by decide) (by decide) (by decide) (by decide)
   have hov : hasOverflow (runCap { cfg14 with readSize := 64, maxBuffer := 64 }
@@ -275,7 +276,7 @@ theorem malformed_no_crash_counterexample : ¬ C04_malformed_no_crash false := b
 
 /-- PARTIAL, the PINNED code: no panic on any segmentation of a well-formed pipeline in which no
     command name is empty / white space only -/
-theorem no_crash_wellformed_partial (cfg : Config) (h14 : cfg.headerLen = 14) (hc : cfg.codec = codec1)
+theorem no_crash_wellformed_partial (cfg : Config) (h14 : DeadCfg cfg) (hc : cfg.codec = codec1)
     (hd : 2 ≤ cfg.env.depth) (cmds : List Cmd) (segs : List Bytes) (h : segs.flatten = stream cmds)
     (hs : Small (stream cmds)) (hmax : (stream cmds).length ≤ cfg.maxBuffer)
     (hname : ∀ c ∈ cmds, nameWs c = false) :
@@ -286,7 +287,7 @@ theorem no_crash_wellformed_partial (cfg : Config) (h14 : cfg.headerLen = 14) (h
 /-- PART 3 (earlier replies untouched) holds for all bytes that may follow a well-formed pipeline
     and all segmentations: the commands of the pipeline are executed exactly once, in order, before
     anything else happens -/
-theorem malformed_keeps_earlier (cfg : Config) (h14 : cfg.headerLen = 14) (hc : cfg.codec = codec1)
+theorem malformed_keeps_earlier (cfg : Config) (h14 : DeadCfg cfg) (hc : cfg.codec = codec1)
     (cmds : List Cmd) (junk : Bytes) (segs : List Bytes) (h : segs.flatten = stream cmds ++ junk)
     (hs : Small (stream cmds ++ junk)) (hmax : (stream cmds ++ junk).length ≤ cfg.maxBuffer)
     (hok : ∀ c ∈ cmds, CmdOK cfg c) :
@@ -314,14 +315,14 @@ theorem replyCount_execAll_append (cmds : List Cmd) (rest : List Action) :
     `malformed_keeps_earlier` and `malformed_no_crash`: error reply, never silence, a hang or a crash,
     earlier replies untouched.  (For frames beginning with `*` the statement is refuted by the
     look-alikes: `malformed_is_error_counterexample`.) -/
-theorem malformed_gets_error_partial (cfg : Config) (h14 : cfg.headerLen = 14) (hc : cfg.codec = codec1)
+theorem malformed_gets_error_partial (cfg : Config) (h14 : DeadCfg cfg) (hc : cfg.codec = codec1)
     (hd : 1 ≤ cfg.env.depth) (cmds : List Cmd) (junk : Bytes) (segs : List Bytes)
     (h : segs.flatten = stream cmds ++ junk) (hstar : junk.head? ≠ some 42) (e : Err)
     (hrej : (parse1 cfg.env junk).out = .error e)
     (hs : Small (stream cmds ++ junk)) (hmax : (stream cmds ++ junk).length ≤ cfg.maxBuffer)
     (hok : ∀ c ∈ cmds, CmdOK cfg c) :
     (∃ tail, run cfg segs = execAll cmds ++ Action.protoErr :: tail) ∧ cmds.length + 1 ≤ replyCount (run cfg segs) := by
-  obtain ⟨tail, ht⟩ := run_junk_error cfg h14 hc hd cmds junk segs h hstar e hrej hs hmax hok
+  obtain ⟨tail, ht⟩ := run_junk_error cfg h14 hc hd cmds junk segs h (Or.inl hstar) e hrej hs hmax hok
   refine ⟨⟨tail, ht⟩, ?_⟩
   rw [ht, replyCount_execAll_append]
   simp only [replyCount]
@@ -462,7 +463,7 @@ theorem connections_independent (cfg : Config) (poolSize : Nat) (specs : List Co
 /-- composed with `segmentation_independent`: on a server with a shared buffer pool, whatever its
     other connections did, a connection that sends a well-formed pipeline (in any segmentation, and
     whose replies can be written) gets every command executed exactly once, in order -/
-theorem pooled_one_reply_per_command (cfg : Config) (h14 : cfg.headerLen = 14) (hc : cfg.codec = codec1)
+theorem pooled_one_reply_per_command (cfg : Config) (h14 : DeadCfg cfg) (hc : cfg.codec = codec1)
     (hd : 1 ≤ cfg.env.depth) (poolSize : Nat) (specs : List ConnSpec) (evs : List Ev)
     (i : Nat) (out : List Action') (h : (i, out) ∈ (serve cfg (Pool.init poolSize true) specs evs).outs)
     (cmds : List Cmd) (segs : List Bytes) (hspec : specs[i]? = some ⟨segs, none⟩)
@@ -530,14 +531,14 @@ open RedisVerif.ConnW
     stream the client receives is exactly the concatenation of the encoded replies of the
     commands, executed once each, in command order -/
 def C04_bytes_written (h : Nat) (guard : Bool) : Prop :=
-  ∀ (σ : Type) (ex : Exec σ) (s0 : σ) (cfg : Config), cfg.headerLen = h → cfg.nameGuard = guard →
+  ∀ (σ : Type) (ex : Exec σ) (s0 : σ) (cfg : Config), cfg.headerLen = h → cfg.repaired = false → cfg.nameGuard = guard →
     cfg.codec = codec1 → 2 ≤ cfg.env.depth →
   ∀ (cmds : List Cmd) (segs : List Bytes) (script : List WEv), segs.flatten = stream cmds →
     Small (stream cmds) → (stream cmds).length ≤ cfg.maxBuffer → NoFail script = true →
     (runW cfg ex s0 script segs none).out = replyBytes ex s0 (cmds.map cmdFrame)
 
 /-- the general form (`CmdOK`: name guard on, or no command name empty / white space only) -/
-theorem bytes_written_cmdok (σ : Type) (ex : Exec σ) (s0 : σ) (cfg : Config) (h14 : cfg.headerLen = 14)
+theorem bytes_written_cmdok (σ : Type) (ex : Exec σ) (s0 : σ) (cfg : Config) (h14 : DeadCfg cfg)
     (hc : cfg.codec = codec1) (hd : 1 ≤ cfg.env.depth) (cmds : List Cmd) (segs : List Bytes) (script : List WEv)
     (h : segs.flatten = stream cmds) (hs : Small (stream cmds)) (hmax : (stream cmds).length ≤ cfg.maxBuffer)
     (hok : ∀ c ∈ cmds, CmdOK cfg c) (hnf : NoFail script = true) :
@@ -548,13 +549,13 @@ theorem bytes_written_cmdok (σ : Type) (ex : Exec σ) (s0 : σ) (cfg : Config) 
   rw [runW_eq cfg ex s0 script segs hnf hnc, hrun, encActs_execAll]
 
 theorem bytes_written : C04_bytes_written 14 true :=
-  fun σ ex s0 cfg h14 hg hc hd cmds segs script h hs hmax hnf =>
-    bytes_written_cmdok σ ex s0 cfg h14 hc (by omega) cmds segs script h hs hmax (fun _ _ => ⟨hd, Or.inl hg⟩) hnf
+  fun σ ex s0 cfg h14 hr hg hc hd cmds segs script h hs hmax hnf =>
+    bytes_written_cmdok σ ex s0 cfg (DeadCfg.of14 hr h14) hc (by omega) cmds segs script h hs hmax (fun _ _ => ⟨hd, Or.inl hg⟩) hnf
 
 /-- with HEADER_LEN = 13 the byte stream lacks the reply of a consumed-and-dropped GET -/
 theorem bytes_written_header13_counterexample : ¬ C04_bytes_written 13 true := by
   intro h
-  have := h ExSt refExec ExSt.init cfg13 rfl rfl rfl (by decide) [cmdGetK, cmdPing, cmdPing, cmdPing]
+  have := h ExSt refExec ExSt.init cfg13 rfl rfl rfl rfl (by decide) [cmdGetK, cmdPing, cmdPing, cmdPing]
     [stream [cmdGetK, cmdPing, cmdPing, cmdPing]] [] (by simp) (by decide) (by decide) rfl
   have hl : (runW cfg13 refExec ExSt.init [] [stream [cmdGetK, cmdPing, cmdPing, cmdPing]] none).out.length = 21 := by
     decide
@@ -565,7 +566,7 @@ theorem bytes_written_header13_counterexample : ¬ C04_bytes_written 13 true := 
     if the two arrive in different reads — in ONE read the panic takes the unflushed `+PONG` with it -/
 theorem bytes_written_empty_name_counterexample : ¬ C04_bytes_written 14 false := by
   intro h
-  have := h ExSt refExec ExSt.init cfg14 rfl rfl rfl (by decide) [cmdPing, cmdEmptyName]
+  have := h ExSt refExec ExSt.init cfg14 rfl rfl rfl rfl (by decide) [cmdPing, cmdEmptyName]
     [stream [cmdPing, cmdEmptyName]] [] (by simp) (by decide) (by decide) rfl
   have hl : (runW cfg14 refExec ExSt.init [] [stream [cmdPing, cmdEmptyName]] none).out.length = 0 := by decide
   rw [this] at hl
@@ -574,7 +575,7 @@ theorem bytes_written_empty_name_counterexample : ¬ C04_bytes_written 14 false 
 /-- … hence equal to what the client receives when every command arrives alone, in its own
     segment, under any other configuration, from a peer that takes every write whole -/
 theorem bytes_as_sent_alone (σ : Type) (ex : Exec σ) (s0 : σ) (cfg cfg' : Config)
-    (h14 : cfg.headerLen = 14) (h14' : cfg'.headerLen = 14) (hc : cfg.codec = codec1) (hc' : cfg'.codec = codec1)
+    (h14 : DeadCfg cfg) (h14' : DeadCfg cfg') (hc : cfg.codec = codec1) (hc' : cfg'.codec = codec1)
     (hd : 1 ≤ cfg.env.depth) (hd' : 1 ≤ cfg'.env.depth)
     (cmds : List Cmd) (segs : List Bytes) (script : List WEv) (h : segs.flatten = stream cmds)
     (hs : Small (stream cmds)) (hmax : (stream cmds).length ≤ cfg.maxBuffer) (hmax' : (stream cmds).length ≤ cfg'.maxBuffer)
@@ -587,7 +588,7 @@ theorem bytes_as_sent_alone (σ : Type) (ex : Exec σ) (s0 : σ) (cfg cfg' : Con
     partial writes, `Ok(0)`, a failed flush), a `read()` that fails after any number of reads: the
     client has received a PREFIX of the correct reply stream — never a reply out of order, never a
     reply to another command, never bytes that are not replies -/
-theorem written_is_prefix (σ : Type) (ex : Exec σ) (s0 : σ) (cfg : Config) (h14 : cfg.headerLen = 14)
+theorem written_is_prefix (σ : Type) (ex : Exec σ) (s0 : σ) (cfg : Config) (h14 : DeadCfg cfg)
     (hc : cfg.codec = codec1) (hd : 1 ≤ cfg.env.depth)
     (cmds : List Cmd) (segs : List Bytes) (script : List WEv) (stopAfter : Option Nat) (h : segs.flatten = stream cmds)
     (hs : Small (stream cmds)) (hmax : (stream cmds).length ≤ cfg.maxBuffer) (hok : ∀ c ∈ cmds, CmdOK cfg c) :
@@ -604,7 +605,7 @@ theorem written_is_prefix (σ : Type) (ex : Exec σ) (s0 : σ) (cfg : Config) (h
     executed, the bytes it has received are exactly the replies to `done` — all of them, none
     stranded in the write buffer until more input arrives — and what the handler still holds (`pre`)
     is a proper prefix of the next frame. -/
-theorem nothing_withheld (σ : Type) (ex : Exec σ) (s0 : σ) (cfg : Config) (h14 : cfg.headerLen = 14)
+theorem nothing_withheld (σ : Type) (ex : Exec σ) (s0 : σ) (cfg : Config) (h14 : DeadCfg cfg)
     (hc : cfg.codec = codec1) (hd : 1 ≤ cfg.env.depth)
     (cmds : List Cmd) (segs : List Bytes) (rest : Bytes) (script : List WEv) (h : segs.flatten ++ rest = stream cmds)
     (hs : Small (stream cmds)) (hmax : (stream cmds).length ≤ cfg.maxBuffer) (hok : ∀ c ∈ cmds, CmdOK cfg c)
@@ -651,7 +652,7 @@ theorem written_refines_actions (σ : Type) (ex : Exec σ) (s0 : σ) (cfg : Conf
     byte left over.  `ValOK`: the executor's replies are values of the reply type that fit the
     client's stack and nest at most 32 arrays. -/
 theorem client_decodes_one_reply_per_command (σ : Type) (ex : Exec σ) (s0 : σ) (cfg : Config)
-    (h14 : cfg.headerLen = 14) (hc : cfg.codec = codec1) (hd : 1 ≤ cfg.env.depth)
+    (h14 : DeadCfg cfg) (hc : cfg.codec = codec1) (hd : 1 ≤ cfg.env.depth)
     (cmds : List Cmd) (segs : List Bytes) (script : List WEv) (h : segs.flatten = stream cmds)
     (hs : Small (stream cmds)) (hmax : (stream cmds).length ≤ cfg.maxBuffer) (hok : ∀ c ∈ cmds, CmdOK cfg c)
     (hnf : NoFail script = true)
@@ -688,6 +689,179 @@ example : (runW cfg14 refExec ExSt.init [.accept 6, .fail] [stream [cmdSetKV, cm
     (runW cfg14 refExec ExSt.init [.accept 6, .accept 0] [stream [cmdSetKV, cmdGetK, cmdPing]] none).ended = true := by
   decide
 
+/-! ## 6. the PREPARED FIX of the recognisers (`fixes-conn-s4`: HEADER_LEN = 13, LF and UTF-8 tests, an
+incomplete frame is left to the generic parser, collected commands are always executed, the gate
+asks the ACL) — `Config.repaired = true`, `headerLen = 13`
+
+The six known findings `C04:malformed-{accepted,silence}:*-lookalike`, `C04:malformed-stall:*-lookalike-prefix`
+have ONE cause (the recognisers index a 13-byte header with 14); changing the constant alone is
+refuted above (`header13_counterexample`).  What follows is proved about the model of the REPAIRED
+code (the model follows the source through `VERIF_C04_INCOMPLETE` / `VERIF_C04_HEADER_LEN`). -/
+
+/-- the repaired code with the default thresholds -/
+def cfgR : Config := { cfg14 with headerLen := 13, nameGuard := true, repaired := true }
+
+example : Repaired13 cfgR := ⟨rfl, rfl, rfl, by decide⟩
+
+/-- THE LOOK-ALIKE CLASS IS EMPTY: whatever a repaired recogniser takes — in any buffer that can
+    exist — is a frame that the generic decoder decodes to the very same command (name as written,
+    key, value), consuming the very same bytes; and a repaired recogniser never answers "need more
+    data" (the cause of the stalls), it takes a frame or leaves it to the decoder -/
+theorem repaired_recognisers_sound (env : Env) (hd : 2 ≤ env.depth) (buf : Bytes) (hs : Small buf) :
+    (∀ key total, recogGetR 13 buf = .get key total →
+      (parse1 env buf).out = .ok (getFrameN buf key) total ∧ validUtf8 key = true) ∧
+    (∀ key val total, recogSetR 13 buf = .set key val total →
+      (parse1 env buf).out = .ok (setFrameN buf key val) total ∧ validUtf8 key = true) ∧
+    ((∃ k t, recogGetR 13 buf = .get k t) ∨ recogGetR 13 buf = .notFast) ∧
+    ((∃ k v t, recogSetR 13 buf = .set k v t) ∨ recogSetR 13 buf = .notFast) :=
+  ⟨fun key total h => let r := recogGetR_sound env hd buf key total hs h; ⟨r.1, r.2.2.2⟩,
+   fun key val total h => let r := recogSetR_sound env hd buf key val total hs h; ⟨r.1, r.2.2.2⟩,
+   recogGetR_cases 13 buf, recogSetR_cases 13 buf⟩
+
+/-- bytes a recogniser takes (0 = it declines / waits) -/
+def took : Recog → Nat
+  | .get _ t => t
+  | .set _ _ t => t
+  | _ => 0
+
+/-- non-vacuity: a well-formed `GET k` / `get k` / `SET k v` IS taken (the paths are alive), a key that is
+    not UTF-8 is left to the generic path, the old look-alike and a lone CR in the length line are declined -/
+example : took (recogGetR 13 (encCmd cmdGetK)) = 20 ∧ took (recogGetR 13 (encCmd [[103, 101, 116], [107]])) = 20 ∧
+    took (recogSetR 13 (encCmd cmdSetKV)) = 27 ∧ took (recogGetR 13 (encCmd [[71, 69, 84], [255]])) = 0 ∧
+    took (recogGetR 13 getLookalike) = 0 ∧
+    took (recogGetR 13 [42, 50, 13, 10, 36, 51, 13, 10, 71, 69, 84, 13, 10, 36, 49, 13, 88, 107, 13, 10]) = 0 := by decide
+
+/-- TRANSPARENCY: for EVERY byte stream (well-formed or not) in EVERY segmentation, under every
+    batching configuration, the repaired connection does exactly what it does with the recognisers
+    switched off (`cfg.off`: a user without unrestricted keys — the generic decoder carries
+    everything): the same frames in the same order, the same protocol errors, the same end — only
+    the label of the path that carried a frame differs.  Every statement about the generic loop is
+    a statement about the repaired connection. -/
+theorem repaired_transparent (cfg : Config) (hR : Repaired13 cfg) (hmax : cfg.maxBuffer < 72057594037927936)
+    (segs : List Bytes) :
+    (run cfg segs).map Action.noPath = (run cfg.off segs).map Action.noPath :=
+  run_transparent cfg hR hmax segs
+
+/-- full statement for the repaired code: every segmentation of every well-formed pipeline, under
+    every batching configuration, executes every command exactly once, in order — on whichever path -/
+def C04_segmentation_independent_repaired (h : Nat) : Prop :=
+  ∀ (cfg : Config), cfg.headerLen = h → cfg.repaired = true → cfg.nameGuard = true → cfg.codec = codec1 → 2 ≤ cfg.env.depth →
+  cfg.maxBuffer < 72057594037927936 →
+  ∀ (cmds : List Cmd) (segs : List Bytes), segs.flatten = stream cmds →
+    Small (stream cmds) → (stream cmds).length ≤ cfg.maxBuffer →
+    (run cfg segs).map Action.noPath = execAll cmds
+
+theorem segmentation_independent_repaired : C04_segmentation_independent_repaired 13 := by
+  intro cfg h13 hrep hg hc hd hmb cmds segs h hs hmax
+  rw [run_transparent cfg ⟨hrep, h13, hc, hd⟩ hmb segs,
+    run_wf cfg.off (DeadCfg.off cfg hrep) hc (by have : cfg.off.env = cfg.env := rfl; rw [this]; omega) cmds segs h hs hmax
+      (fun _ _ => ⟨hd, Or.inl hg⟩), noPath_execAll]
+
+/-- exactly one reply per command, each equal to the reply the command gets when every command
+    arrives alone, in its own segment, under any other repaired configuration -/
+theorem one_reply_per_command_repaired (cfg cfg' : Config) (hR : Repaired13 cfg) (hR' : Repaired13 cfg')
+    (hg : cfg.nameGuard = true) (hg' : cfg'.nameGuard = true)
+    (hmb : cfg.maxBuffer < 72057594037927936) (hmb' : cfg'.maxBuffer < 72057594037927936)
+    (cmds : List Cmd) (segs : List Bytes) (h : segs.flatten = stream cmds)
+    (hs : Small (stream cmds)) (hmax : (stream cmds).length ≤ cfg.maxBuffer) (hmax' : (stream cmds).length ≤ cfg'.maxBuffer)
+    (s : ExSt) :
+    (replies ExSt.init (run cfg segs)).length = cmds.length ∧
+    replies s (run cfg segs) = replies s (run cfg' (cmds.map encCmd)) := by
+  have e1 := segmentation_independent_repaired cfg hR.2.1 hR.1 hg hR.2.2.1 hR.2.2.2 hmb cmds segs h hs hmax
+  have e2 := segmentation_independent_repaired cfg' hR'.2.1 hR'.1 hg' hR'.2.2.1 hR'.2.2.2 hmb' cmds (cmds.map encCmd) rfl hs hmax'
+  refine ⟨?_, ?_⟩
+  · rw [← replies_noPath, e1]; exact replies_execAll_length _ _
+  · rw [← replies_noPath (run cfg segs), ← replies_noPath (run cfg' _), e1, e2]
+
+/-- FULL statement of the second sentence of the property for the repaired code — no restriction to
+    frames that do not begin with `*` any more: ANY bytes after a well-formed pipeline, in any
+    segmentation: no panic, no frame consumed without a reply, the replies to the pipeline
+    untouched; and when the decoder rejects the trailing frame it is answered with
+    `-ERR protocol error` right after the replies to the commands before it -/
+def C04_malformed_is_error_repaired (cfg : Config) : Prop :=
+  ∀ (cmds : List Cmd) (junk : Bytes) (segs : List Bytes), segs.flatten = stream cmds ++ junk →
+    Small (stream cmds ++ junk) → (stream cmds ++ junk).length ≤ cfg.maxBuffer → (∀ c ∈ cmds, CmdOK cfg c) →
+    hasCrash (run cfg segs) = false ∧ hasDropped (run cfg segs) = false ∧
+    ((run cfg segs).map Action.noPath).take cmds.length = execAll cmds ∧
+    (∀ e, (parse1 cfg.env junk).out = .error e →
+      ∃ tail, (run cfg segs).map Action.noPath = execAll cmds ++ Action.protoErr :: tail)
+
+theorem hasDropped_of_noDropped : ∀ (acts : List Action), (∀ a ∈ acts, a.isDropped = false) → hasDropped acts = false := by
+  intro acts
+  induction acts with
+  | nil => intro _; rfl
+  | cons a as ih =>
+    intro h
+    have ha := h a (by simp)
+    have := ih (fun x hx => h x (by simp [hx]))
+    cases a <;> simp_all [hasDropped, Action.isDropped]
+
+theorem malformed_is_error_repaired (cfg : Config) (hR : Repaired13 cfg) (hck : cfg.checked = true)
+    (hg : cfg.nameGuard = true) (hd : maxNesting + 1 ≤ cfg.env.depth) (hmb : cfg.maxBuffer < 72057594037927936) :
+    C04_malformed_is_error_repaired cfg := by
+  intro cmds junk segs h hs hmax hok
+  have htr := run_transparent cfg hR hmb segs
+  have hokoff : ∀ c ∈ cmds, CmdOK cfg.off c := hok
+  obtain ⟨tail, ht⟩ := run_junk cfg.off (DeadCfg.off cfg hR.1) hR.2.2.1 cmds junk segs h hs hmax hokoff
+  refine ⟨run_no_crash cfg hck hg hR.2.2.1 hd hmb segs,
+    hasDropped_of_noDropped _ (run_noDropped cfg hR.1 segs), ?_, ?_⟩
+  · rw [htr, ht, List.map_append, noPath_execAll]
+    have : (execAll cmds).length = cmds.length := by simp [execAll]
+    rw [← this, List.take_left']
+    rfl
+  · intro e hrej
+    obtain ⟨tail', ht'⟩ := run_junk_error cfg.off (DeadCfg.off cfg hR.1) hR.2.2.1
+      (by have : cfg.off.env = cfg.env := rfl; rw [this]; unfold maxNesting at hd; omega)
+      cmds junk segs h (Or.inr ⟨hR.1, rfl⟩) e hrej hs hmax hokoff
+    refine ⟨tail'.map Action.noPath, ?_⟩
+    rw [htr, ht', List.map_append, noPath_execAll]
+    rfl
+
+def firstIsProtoErr : List Action → Bool
+  | .protoErr :: _ => true
+  | _ => false
+
+/-- non-vacuity, on the witnesses of the six known findings: under the repaired configuration the
+    look-alike is answered with a protocol error — alone, in a buffer above `min_pipeline_buffer`
+    with three PINGs behind it (four replies for four frames, nothing dropped; the handler clears
+    its buffer at a protocol error, so the PINGs of the same read go with it: one reply),
+    and as a prefix after a PING (no stall) — and the well-formed `GET k` that `HEADER_LEN = 13`
+    alone would drop below `batch_threshold` (`header13_counterexample`) is answered -/
+example : firstIsProtoErr (run cfgR [getLookalike]) = true ∧ replyCount (run cfgR [getLookalike]) = 1 ∧
+    hasDropped (run cfgR [getLookalike ++ stream [cmdPing, cmdPing, cmdPing]]) = false ∧
+    firstIsProtoErr (run cfgR [getLookalike ++ stream [cmdPing, cmdPing, cmdPing]]) = true ∧
+    replyCount (run cfgR [stream [cmdPing], getLookalike.take 15 ++ [52, 13, 10, 97, 98]]) = 2 ∧
+    replyCount (run cfgR [stream [cmdGetK, cmdPing, cmdPing, cmdPing]]) = 4 ∧
+    hasDropped (run cfgR [stream [cmdGetK, cmdPing, cmdPing, cmdPing]]) = false := by decide
+
+/-- the bytes on the wire, repaired code: for every executor that answers a frame the same on every
+    path (`get_direct` IS GET, `set_direct` IS plain SET: C03's `execVia_refines`), every well-formed
+    pipeline, every segmentation of the reads and of the writes, the client receives exactly the
+    concatenation of the encoded replies, in command order -/
+theorem bytes_written_repaired (σ : Type) (ex : Exec σ) (s0 : σ) (hex : ∀ s f p, ex s f p = ex s f .generic)
+    (cfg : Config) (hR : Repaired13 cfg) (hck : cfg.checked = true) (hg : cfg.nameGuard = true)
+    (hd : maxNesting + 1 ≤ cfg.env.depth) (hmb : cfg.maxBuffer < 72057594037927936)
+    (cmds : List Cmd) (segs : List Bytes) (script : List WEv) (h : segs.flatten = stream cmds)
+    (hs : Small (stream cmds)) (hmax : (stream cmds).length ≤ cfg.maxBuffer) (hnf : NoFail script = true) :
+    (runW cfg ex s0 script segs none).out = replyBytes ex s0 (cmds.map cmdFrame) := by
+  have hrun := segmentation_independent_repaired cfg hR.2.1 hR.1 hg hR.2.2.1 hR.2.2.2 hmb cmds segs h hs hmax
+  have hnc := run_no_crash cfg hck hg hR.2.2.1 hd hmb segs
+  have henc : ∀ (acts : List Action) (s : σ), encActs ex s (acts.map Action.noPath) = encActs ex s acts := by
+    intro acts
+    induction acts with
+    | nil => intro s; rfl
+    | cons a as ih =>
+      intro s
+      cases a with
+      | exec f p => simp only [List.map_cons, Action.noPath, encActs, ih, hex s f p]
+      | dropped f => simp only [List.map_cons, Action.noPath, encActs, ih]
+      | protoErr => simp only [List.map_cons, Action.noPath, encActs, ih]
+      | overflow => simp only [List.map_cons, Action.noPath, encActs, ih]
+      | crash => simp only [List.map_cons, Action.noPath, encActs]
+  rw [runW_eq cfg ex s0 script segs hnf hnc, ← henc, hrun, encActs_execAll]
+
+example : ∀ (s : ExSt) (f : Val) (p : Path), refExec s f p = refExec s f .generic := fun _ _ _ => rfl
+
 /-! ## 5. the MIRROR the repository's own connection tests use (Model/ConnSim.lean)
 
 `SimulatedConnection::process` (src/simulator/connection.rs) is a second, hand-written implementation
@@ -707,7 +881,7 @@ def C04_mirror_faithful (cmdErr : Val → Bool) : Prop :=
     parser accepts, for any two segmentations (the mirror's random partial reads, the network's
     segments and the handler's read size), under every configuration, the mirror executes exactly the
     frames the production handler executes, in the same order, each once -/
-theorem mirror_agrees_on_wellformed_partial (cfg : Config) (h14 : cfg.headerLen = 14) (hc : cfg.codec = codec1)
+theorem mirror_agrees_on_wellformed_partial (cfg : Config) (h14 : DeadCfg cfg) (hc : cfg.codec = codec1)
     (cmdErr : Val → Bool) (cmds : List Cmd) (chunks segs : List Bytes)
     (hch : chunks.flatten = stream cmds) (hseg : segs.flatten = stream cmds)
     (hs : Small (stream cmds)) (hmax : (stream cmds).length ≤ cfg.maxBuffer) (hok : ∀ c ∈ cmds, CmdOK cfg c)
